@@ -99,6 +99,39 @@ Proof.
   destruct (N.eqb_spec k' k) as [->|]; [inversion H; subst; assumption | auto].
 Qed.
 
+(* ---- Marshaler types: when the hypothesis [marsh_inv] holds ------------------------------------- *)
+Definition inverts (m u : bytes -> res bytes) : Prop := forall x p, m x = Ok p -> u p = Ok x.
+
+Lemma marsh_inv_forall o :
+  Forall (fun e => match snd e with RMarsh m u => inverts m u | _ => True end) (o_reg o) -> marsh_inv o.
+Proof.
+  unfold marsh_inv, lookup_reg. induction (o_reg o) as [|[k d] l IH]; intros HF name m u x p Hl Hm; [discriminate|].
+  inversion HF as [|? ? Hd HF']; subst. cbn [assoc] in Hl. destruct (bytes_eqb name k).
+  - inversion Hl; subst. cbn [snd] in Hd. now apply Hd.
+  - eapply IH; eauto.
+Qed.
+
+(* a registry without Marshaler types *)
+Lemma marsh_inv_none o : forallb (fun e => negb (is_marsh (snd e))) (o_reg o) = true -> marsh_inv o.
+Proof.
+  intros H. apply marsh_inv_forall. rewrite forallb_forall in H. apply Forall_forall. intros e Hin.
+  specialize (H e Hin). destruct (snd e); try exact I. discriminate H.
+Qed.
+
+(* the harness's own marshalers (go/harness/cmd/edf/types.go HMar, HBin) satisfy the hypothesis *)
+Lemma xor_inverts : inverts mar_xor unmar_xor.
+Proof.
+  intros x p H. unfold mar_xor in H. ok_inv H. unfold unmar_xor. f_equal. rewrite map_map.
+  rewrite <- (map_id x) at 2. apply map_ext. intros a.
+  now rewrite <- N.lxor_assoc, N.lxor_nilpotent, N.lxor_0_l.
+Qed.
+
+Lemma rev_inverts : inverts mar_rev unmar_rev.
+Proof.
+  intros x p H. unfold mar_rev in H. ok_inv H. unfold unmar_rev. f_equal.
+  rewrite !rev_append_rev, !app_nil_r. apply rev_involutive.
+Qed.
+
 (* ---- atoms ------------------------------------------------------------------------------------------ *)
 Lemma wf_atom_cache o c : wf_opts o -> o_atom_cache o = Some c ->
   nodupb (map snd c) = true /\ forallb (fun p => snd p <? 65536) c = true.
@@ -532,7 +565,10 @@ Proof.
                               | RArray n t' => (0 <? n) && minw_pos f o t'
                               | _ => true end = true).
     { destruct Hc as [->|Hm]; [now left|right]. cbn [minw_pos] in Hm. rewrite Hl in Hm. destruct d; auto. }
-    clear Hc. destruct d as [p|fs|t'|n t'|tk tv].
+    clear Hc. destruct d as [p|fs|t'|n t'|tk tv|mm mu];
+      [| | | | |destruct v; try discriminate He; apply bind_ok in He as (pl & Hpl & He);
+                destruct (maxMarsh <? blen pl); [discriminate|]; ok_inv He;
+                apply Hh; [discriminate|]; right; unfold put_lp; rewrite app_length, put_be_length; lia].
     + destruct (regable p); [|discriminate]. apply bind_ok in He as (b & Hb & He). ok_inv He.
       apply Hh; [discriminate|]. right. eapply enc_prim_nonempty; eauto.
     + destruct v; try discriminate He. apply bind_ok in He as (b & Hb & He). ok_inv He.
@@ -562,7 +598,7 @@ Qed.
 Lemma enc_true_not_errnil o f t bs : enc_val f o true t VErrNil = Ok bs -> False.
 Proof.
   destruct f as [|f]; [discriminate|]. cbn [enc_val]. destruct t as [p| |t'|n t'|tk tv|name]; try discriminate.
-  destruct (lookup_reg o name) as [d|]; [|discriminate]. destruct d as [p|fs|t'|n t'|tk tv]; try discriminate.
+  destruct (lookup_reg o name) as [d|]; [|discriminate]. destruct d as [p|fs|t'|n t'|tk tv|mm mu]; try discriminate.
   destruct (regable p) eqn:Hr; [|discriminate]. destruct p; try discriminate Hr; discriminate.
 Qed.
 
@@ -627,11 +663,11 @@ Qed.
 (* ---- the round trip of values ------------------------------------------------------------------------ *)
 Definition hdr (o : opts) (et : bool) (t : ty) : bytes := if et then ty_hdr o t else [].
 
-Lemma enc_dec_val o : wf_opts o -> forall f t v et bs rest,
+Lemma enc_dec_val o : wf_opts o -> marsh_inv o -> forall f t v et bs rest,
   guard f o t v = true -> enc_val f o et t v = Ok bs ->
   exists body, bs = hdr o et t ++ body /\ dec_val f (dual o) t (body ++ rest) = Ok (canon o v, rest).
 Proof.
-  intros Hwf. induction f as [|f IH]; intros t v et bs rest Hg He; [discriminate|].
+  intros Hwf Hmi. induction f as [|f IH]; intros t v et bs rest Hg He; [discriminate|].
   assert (IH0 : forall t v bs rest, guard f o t v = true -> enc_val f o false t v = Ok bs ->
                  dec_val f (dual o) t (bs ++ rest) = Ok (canon o v, rest)).
   { intros t0 v0 bs0 rest0 Hg0 He0. destruct (IH t0 v0 false bs0 rest0 Hg0 He0) as (body & -> & Hd). exact Hd. }
@@ -704,7 +740,11 @@ Proof.
       apply MAP; [reflexivity|assumption|assumption].
   - destruct (lookup_reg o name) as [d|] eqn:Hl; [|discriminate].
     cbn [dec_val]. rewrite dual_lookup, Hl.
-    destruct d as [p|fs|t'|n t'|tk tv].
+    destruct d as [p|fs|t'|n t'|tk tv|mm mu];
+      [| | | | |destruct v; try discriminate He; apply bind_ok in He as (pl & Hpl & He);
+                unfold maxMarsh in He; destruct (N.ltb_spec 4294967294 (blen pl)) as [|Hle]; [discriminate|]; ok_inv He;
+                exists (put_lp 4 pl); split; [reflexivity|];
+                rewrite lp4_rt by lia; cbn [bind]; rewrite (Hmi _ _ _ _ _ Hl Hpl); reflexivity].
     + destruct (regable p) eqn:Hr; [|discriminate]. apply bind_ok in He as (b & Hb & He). ok_inv He.
       exists b. split; [reflexivity|]. unfold dec_prim. apply enc_dec_prim; try assumption.
       destruct p; try discriminate Hr; reflexivity.
@@ -740,13 +780,13 @@ Proof.
 Qed.
 
 Theorem roundtrip_partial o t v bs rest :
-  wf_opts o -> supported o t v = true -> encode o t v = Ok bs ->
+  wf_opts o -> marsh_inv o -> supported o t v = true -> encode o t v = Ok bs ->
   decode (dual o) (bs ++ rest) = Ok (t, canon o v, rest).
 Proof.
-  intros Hwf Hs He. unfold supported in Hs. apply andb_true_iff in Hs as [Hd Hg].
+  intros Hwf Hmi Hs He. unfold supported in Hs. apply andb_true_iff in Hs as [Hd Hg].
   unfold encode in He. destruct (ty_enc_ok o t) eqn:Hte; [|discriminate].
   apply bind_ok in He as (b & Hb & He). ok_inv He.
-  destruct (enc_dec_val o Hwf _ _ _ _ _ rest Hg Hb) as (body & Hbody & Hdec).
+  destruct (enc_dec_val o Hwf Hmi _ _ _ _ _ rest Hg Hb) as (body & Hbody & Hdec).
   unfold hdr in Hbody. cbn [app] in Hbody. subst body.
   unfold decode. change (o_fuel (dual o)) with (o_fuel o). rewrite <- app_assoc.
   pose proof Hd as Hd'. unfold desc_ok in Hd'. apply andb_true_iff in Hd' as [Htg Hlen]. apply N.ltb_lt in Hlen.
@@ -795,17 +835,17 @@ Qed.
 
 (* exact consumption is part of the statement above; with an empty continuation: *)
 Corollary roundtrip_exact o t v bs :
-  wf_opts o -> supported o t v = true -> encode o t v = Ok bs ->
+  wf_opts o -> marsh_inv o -> supported o t v = true -> encode o t v = Ok bs ->
   decode (dual o) bs = Ok (t, canon o v, []).
-Proof. intros Hwf Hs He. rewrite <- (app_nil_r bs). now apply roundtrip_partial. Qed.
+Proof. intros Hwf Hmi Hs He. rewrite <- (app_nil_r bs). now apply roundtrip_partial. Qed.
 
 (* nil and empty collections are different values, encode differently and come back as sent *)
 Theorem nil_vs_empty o t :
-  wf_opts o -> desc_ok o (TSlice t) = true -> ty_enc_ok o t = true -> (1 <= o_fuel o)%nat ->
+  wf_opts o -> marsh_inv o -> desc_ok o (TSlice t) = true -> ty_enc_ok o t = true -> (1 <= o_fuel o)%nat ->
   exists b1 b2, encode o (TSlice t) VNil = Ok b1 /\ encode o (TSlice t) (VList []) = Ok b2 /\ b1 <> b2 /\
     decode (dual o) b1 = Ok (TSlice t, VNil, []) /\ decode (dual o) b2 = Ok (TSlice t, VList [], []).
 Proof.
-  intros Hwf Hd Hte Hf. destruct (o_fuel o) as [|f] eqn:Hfu; [lia|].
+  intros Hwf Hmi Hd Hte Hf. destruct (o_fuel o) as [|f] eqn:Hfu; [lia|].
   assert (E1 : encode o (TSlice t) VNil = Ok (top_hdr o (TSlice t) ++ [edtNil])).
   { unfold encode. cbn [ty_enc_ok]. rewrite Hte, Hfu. reflexivity. }
   assert (E2 : encode o (TSlice t) (VList []) = Ok (top_hdr o (TSlice t) ++ edtSlice :: put_be 4 0 ++ [])).
@@ -818,14 +858,14 @@ Qed.
 
 (* a sentinel error both sides registered comes back as the same sentinel *)
 Theorem sentinel_errors o k txt bs rest :
-  wf_opts o -> err_cached o k = true -> encode o (TPrim PError) (VErr (Some k) txt) = Ok bs ->
+  wf_opts o -> marsh_inv o -> err_cached o k = true -> encode o (TPrim PError) (VErr (Some k) txt) = Ok bs ->
   decode (dual o) (bs ++ rest) = Ok (TPrim PError, VErr (Some k) txt, rest).
 Proof.
-  intros Hwf Hc He.
+  intros Hwf Hmi Hc He.
   assert (Hs : supported o (TPrim PError) (VErr (Some k) txt) = true).
   { unfold supported. unfold encode in He. cbn [ty_enc_ok] in He.
     destruct (o_fuel o); [discriminate|]. reflexivity. }
-  rewrite (roundtrip_partial o _ _ _ rest Hwf Hs He). cbn [canon]. now rewrite Hc.
+  rewrite (roundtrip_partial o _ _ _ rest Hwf Hmi Hs He). cbn [canon]. now rewrite Hc.
 Qed.
 
 (* ---- rejection: only over-long components --------------------------------------------------------- *)
@@ -890,6 +930,11 @@ Fixpoint has_overlong (f : nat) (o : opts) (t : ty) (v : val) {struct f} : bool 
       | Some (RStruct fs) => match v with VList l => overlong_fields (has_overlong f' o) fs l | _ => false end
       | Some (RSlice t') | Some (RArray _ t') => lst t'
       | Some (RMap tk tv) => mp tk tv
+      | Some (RMarsh m _) =>
+        match v with
+        | VMarsh x => match m x with Ok p => maxMarsh <? blen p | Err ETooLong => true | Err _ => false end
+        | _ => false
+        end
       | None => false
       end
     end
@@ -944,7 +989,10 @@ Proof.
     apply bind_err in He as [He|(b & Hb & He)]; [|discriminate]. now apply LST.
   - destruct v; try discriminate He.
     apply bind_err in He as [He|(b & Hb & He)]; [|discriminate]. now apply MP.
-  - destruct (lookup_reg o name) as [d|]; [|discriminate]. destruct d as [p|fs|t'|n t'|tk tv].
+  - destruct (lookup_reg o name) as [d|]; [|discriminate].
+    destruct d as [p|fs|t'|n t'|tk tv|mm mu];
+      [| | | | |destruct v; try discriminate He; destruct (mm x) as [pl|[]]; cbn [bind] in He; try discriminate He;
+                [destruct (maxMarsh <? blen pl); [reflexivity|discriminate]|reflexivity]].
     + destruct (regable p); [|discriminate].
       apply bind_err in He as [He|(b & Hb & He)]; [|discriminate]. eapply rejects_only_overlong; eauto.
     + destruct v; try discriminate He.
@@ -1042,13 +1090,98 @@ Definition ex_val : val :=
          VList [VList [VInt 1; VInt (-2)]]; VNil].
 
 Example roundtrip_example :
-  wf_opts ex_opts /\ supported ex_opts (TReg [35; 82]) ex_val = true /\
+  wf_opts ex_opts /\ marsh_inv ex_opts /\ supported ex_opts (TReg [35; 82]) ex_val = true /\
   exists bs, encode ex_opts (TReg [35; 82]) ex_val = Ok bs /\ (40 <= length bs)%nat /\
              decode (dual ex_opts) bs = Ok (TReg [35; 82], canon ex_opts ex_val, []).
 Proof.
-  split; [reflexivity|]. split; [vm_compute; reflexivity|].
+  assert (Hmi : marsh_inv ex_opts) by (apply marsh_inv_none; reflexivity).
+  split; [reflexivity|]. split; [exact Hmi|]. split; [vm_compute; reflexivity|].
   destruct (encode ex_opts (TReg [35; 82]) ex_val) as [bs|e] eqn:He; [|vm_compute in He; discriminate].
   exists bs. split; [reflexivity|]. split.
   - vm_compute in He. ok_inv He. cbn [length]. lia.
-  - apply roundtrip_exact; [reflexivity | vm_compute; reflexivity | exact He].
+  - apply roundtrip_exact; [reflexivity | exact Hmi | vm_compute; reflexivity | exact He].
+Qed.
+
+(* ---- Marshaler types ----------------------------------------------------------------------------------
+   a value of a Marshaler type, at any position (here: top level, and by [roundtrip_partial] inside
+   any slice / array / map / struct field / interface), comes back as the same state, consuming
+   exactly header + 4-byte length + payload; the bytes are those and nothing else *)
+Theorem marshaler_bytes o name m u x p :
+  (1 <= o_fuel o)%nat -> lookup_reg o name = Some (RMarsh m u) -> m x = Ok p -> blen p <= maxMarsh ->
+  encode o (TReg name) (VMarsh x) = Ok (prefix o (TReg name) ++ put_be 4 (blen p) ++ p).
+Proof.
+  intros Hf Hl Hm Hlen. unfold encode. cbn [ty_enc_ok]. rewrite Hl.
+  destruct (o_fuel o) as [|f]; [lia|]. cbn [enc_val]. rewrite Hl, Hm. cbn [bind].
+  rewrite ltb_false by assumption. cbn [bind app]. unfold top_hdr. cbn [is_reg negb]. now rewrite andb_false_r.
+Qed.
+
+Theorem marshaler_roundtrip o name m u x bs rest :
+  wf_opts o -> marsh_inv o -> lookup_reg o name = Some (RMarsh m u) ->
+  encode o (TReg name) (VMarsh x) = Ok bs ->
+  decode (dual o) (bs ++ rest) = Ok (TReg name, VMarsh x, rest).
+Proof.
+  intros Hwf Hmi Hl He.
+  assert (Hs : supported o (TReg name) (VMarsh x) = true).
+  { unfold supported, desc_ok. cbn [ty_guard andb].
+    assert (Hp : (blen (prefix o (TReg name)) <? 65536) = true).
+    { apply N.ltb_lt. pose proof (wf_reg_names _ _ _ Hwf Hl) as Hn. cbn [prefix].
+      destruct (match o_reg_cache o with Some c => assoc name c | None => None end);
+        unfold put_lp, blen in *; cbn [length]; try rewrite app_length; rewrite put_be_length; lia. }
+    rewrite Hp. unfold encode in He. destruct (ty_enc_ok o (TReg name)); [|discriminate].
+    destruct (o_fuel o); [discriminate|]. cbn [guard]. now rewrite Hl. }
+  exact (roundtrip_partial o _ _ _ rest Hwf Hmi Hs He).
+Qed.
+
+(* a payload longer than 2^32-2 bytes is rejected when encoding: no bytes are produced *)
+Theorem marshaler_overlong_rejected o name m u x p :
+  (1 <= o_fuel o)%nat -> lookup_reg o name = Some (RMarsh m u) -> m x = Ok p -> maxMarsh < blen p ->
+  encode o (TReg name) (VMarsh x) = Err ETooLong.
+Proof.
+  intros Hf Hl Hm Hlen. unfold encode. cbn [ty_enc_ok]. rewrite Hl.
+  destruct (o_fuel o) as [|f]; [lia|]. cbn [enc_val]. rewrite Hl, Hm. cbn [bind].
+  now rewrite ltb_true by assumption.
+Qed.
+
+(* ... and whatever the position of the marshaler value: Encode never answers Ok for a value with an
+   over-long payload inside ([has_overlong] covers Marshaler payloads); conversely the "too long"
+   answer is given only for an over-long component (rejects_unrepresentable) *)
+
+(* the hypothesis is needed: a marshaler whose Unmarshal does not invert its Marshal breaks the round
+   trip although the codec moves the payload faithfully (Unmarshal = identity on a xor-ing Marshal) *)
+Definition o_badmarsh : opts := mk_opts 16 [([35; 77], RMarsh mar_xor (fun p => Ok p))] None None None None.
+Lemma marsh_hypothesis_needed :
+  wf_opts o_badmarsh /\ supported o_badmarsh (TReg [35; 77]) (VMarsh [1]) = true /\
+  exists bs, encode o_badmarsh (TReg [35; 77]) (VMarsh [1]) = Ok bs /\
+             decode (dual o_badmarsh) bs = Ok (TReg [35; 77], VMarsh [91], []).
+Proof.
+  split; [reflexivity|]. split; [reflexivity|].
+  destruct (encode o_badmarsh (TReg [35; 77]) (VMarsh [1])) as [bs|e] eqn:He; [|vm_compute in He; discriminate].
+  exists bs. split; [reflexivity|]. vm_compute in He. ok_inv He. vm_compute. reflexivity.
+Qed.
+
+(* non-vacuity: the harness's marshaler types in a struct next to other fields, in a slice and in an
+   interface, under a type cache *)
+Definition exm_reg : list (bytes * rdef) :=
+  [([35; 77], RMarsh mar_xor unmar_xor); ([35; 66], RMarsh mar_rev unmar_rev);
+   ([35; 76], RStruct [TPrim PBinary; TReg [35; 77]; TPrim PString; TReg [35; 66]; TSlice (TReg [35; 77]); TAny])].
+Definition exm_opts : opts := mk_opts 16 exm_reg None None (Some [([35; 66], 4096)]) None.
+Definition exm_val : val :=
+  VList [VBytes [1; 2; 3]; VMarsh [0; 90; 255]; VBytes [116]; VMarsh [1; 2; 3; 4];
+         VList [VMarsh []; VMarsh [7]]; VAny (TReg [35; 66]) (VMarsh [9; 8])].
+
+Lemma exm_marsh_inv : marsh_inv exm_opts.
+Proof.
+  apply marsh_inv_forall. repeat constructor; cbn [snd]; [exact xor_inverts | exact rev_inverts].
+Qed.
+
+Example marshaler_example :
+  wf_opts exm_opts /\ marsh_inv exm_opts /\ supported exm_opts (TReg [35; 76]) exm_val = true /\
+  exists bs, encode exm_opts (TReg [35; 76]) exm_val = Ok bs /\ (40 <= length bs)%nat /\
+             decode (dual exm_opts) bs = Ok (TReg [35; 76], exm_val, []).
+Proof.
+  split; [reflexivity|]. split; [exact exm_marsh_inv|]. split; [vm_compute; reflexivity|].
+  destruct (encode exm_opts (TReg [35; 76]) exm_val) as [bs|e] eqn:He; [|vm_compute in He; discriminate].
+  exists bs. split; [reflexivity|]. split.
+  - vm_compute in He. ok_inv He. cbn [length]. lia.
+  - apply (roundtrip_exact exm_opts (TReg [35; 76]) exm_val bs); [reflexivity | exact exm_marsh_inv | vm_compute; reflexivity | exact He].
 Qed.
